@@ -55,6 +55,29 @@ let handle = function
      let (st, evs) = (if w = "run" then run_script_spec else run_script_impl) (nat fuel) e in
      String.concat " " (string_of_int (int_of_nat st) ::
                         List.map (fun (k, v) -> string_of_int (int_of_nat k) ^ ":" ^ string_of_int (int_of_nat v)) evs)
+  | "rundk" :: fuel :: toks ->
+     (* the machine over the SPEC script, stepped here one step at a time: every event is annotated with the
+        machine's (%dk) register AFTER the step that emitted it: "k:v:depth:point"; events of a step that ran
+        before/after thunks (kinds 1, 2 and the parameter reads of DynWindP thunks) get "k:v:-1:-1" — while
+        thunks run the register is in transit (dynamic-wind calls (in) before (%dk new), travel-to-point!
+        runs before (%dk point)) *)
+     let (e, rest) = parse toks in
+     if rest <> [] then failwith "trailing tokens" else
+     let i = int_of_nat in
+     let rec go n s acc =
+       if n <= 0 then (s, acc) else
+       match s.st with
+       | Running ->
+          let s' = step_spec s in
+          let evs = firstn_ (List.length s'.out - List.length s.out) s'.out in
+          let thunky = List.exists (fun (k, _) -> i k = 1 || i k = 2) evs in
+          let ann = List.map (fun (k, v) ->
+                        if thunky then Printf.sprintf "%d:%d:-1:-1" (i k) (i v)
+                        else Printf.sprintf "%d:%d:%d:%d" (i k) (i v) (i (depth s'.hp s'.dk)) (i s'.dk)) evs in
+          go (n - 1) s' (ann @ acc)
+       | _ -> (s, acc) in
+     let (s, acc) = go (int_of_string fuel) (init e) [] in
+     String.concat " " (string_of_int (i (status_code s.st)) :: List.rev acc)
   | ["travel"; h; a; b] ->
      let hp = heap_of h in
      (match travel_to_point hp (travel_fuel hp (nat a) (nat b)) (nat a) (nat b) with
@@ -70,6 +93,20 @@ let handle = function
       | Some (s', t) ->
          let k = (max (List.length (words_of st)) (List.length sv)) + 2 in
          string_of_int (int_of_nat t) ^ " " ^ show_words (firstn_ k s'))
+  | ["srestoreg"; pad; st; saved; maxs] ->
+     (* sexp_restore_stack with its growth branch (restore_stack_g): "<top> <first |saved| words> <stack length afterwards>" | "OOS" *)
+     let w = words_of st in
+     let s = padded (int_of_string pad) w and sv = words_of saved in
+     (match restore_stack_g s (nat_of_int (List.length w)) sv (nat maxs) [] with
+      | None -> "OOS"
+      | Some ((s', t), _) ->
+         string_of_int (int_of_nat t) ^ " " ^ show_words (firstn_ (List.length sv) s') ^ " " ^ string_of_int (List.length s'))
+  | ["values"; how; ls] ->
+     (* the argument list call-with-values applies its consumer to when the producer returned (values . ls) [how = v]
+        or a continuation procedure was called with ls [how = k]; objects are numbers *)
+     let l = if ls = "_" then [] else List.map (fun x -> MObj (nat x)) (String.split_on_char ',' ls) in
+     let r = cwv_args (if how = "k" then cont_deliver l else values l) in
+     "(" ^ String.concat " " (List.map (function MObj n -> string_of_int (int_of_nat n) | MTagged _ -> "T") r) ^ ")"
   | f -> "ERR unknown request " ^ String.concat " " f
 
 let () = serve handle
